@@ -24,11 +24,34 @@ func init() { register("c17seq", c17SeqSuite{}) }
 
 type c17SeqSuite struct{}
 
-// c17Graph emits edge lines of one structured graph and returns (#nodes, acyclic?).
-func c17Graph(rng *Rng, w *bufio.Writer, shape int) (int, bool) {
+// c17IDAlphabet maps the small indices the generators think in to database ids. The alphabets make ids that
+// collide when truncated: pairs congruent mod 2^32 and mod 2^16, ids at and above 2^63, and the small ids.
+type c17IDAlphabet int
+
+const c17Alphabets = 6
+
+func (a c17IDAlphabet) id(i int) uint64 {
+	u := uint64(i)
+	switch a {
+	case 1: // consecutive pairs congruent mod 2^32: 0, 1, 2^32, 2^32+1, 2*2^32, …
+		return (u/2)<<32 + u%2
+	case 2: // every id congruent to 2 mod 2^32 (the seeded shape: 2 and 2^32+2)
+		return u<<32 + 2
+	case 3: // congruent mod 2^16
+		return u<<16 + 7
+	case 4: // at and above 2^63 (negative as int64)
+		return 1<<63 + u
+	case 5: // a mix, ending at the largest id
+		return []uint64{0, 1, 2, 1<<32 + 2, 1<<16 + 1, 1<<63 + 5, 1 << 32, 1<<64 - 1, 1<<32 + 1, 1<<16 + 2, 3, 1<<63 + 1<<32 + 2}[i%12] + uint64(i/12)<<40
+	}
+	return u
+}
+
+// c17Graph emits edge lines of one structured graph and returns (#nodes, acyclic?). Node and edge ids go through `al`.
+func c17Graph(rng *Rng, w *bufio.Writer, shape int, al c17IDAlphabet) (int, bool) {
 	next := 1
 	edge := func(a, b int) {
-		fmt.Fprintf(w, "edge %d %d %d\n", next, a, b)
+		fmt.Fprintf(w, "edge %d %d %d\n", al.id(next), al.id(a), al.id(b))
 		next += 1 + rng.Intn(3)
 	}
 	switch shape {
@@ -91,7 +114,7 @@ func c17Graph(rng *Rng, w *bufio.Writer, shape int) (int, bool) {
 }
 
 // c17RejectSet renders a node-reject filter token of the given class.
-func c17RejectSet(rng *Rng, nodes int, class int) string {
+func c17RejectSet(rng *Rng, nodes int, class int, al c17IDAlphabet) string {
 	switch class {
 	case 0:
 		return "-" // nil filter
@@ -100,26 +123,26 @@ func c17RejectSet(rng *Rng, nodes int, class int) string {
 	case 2: // rejects low ids: nodes reached early
 		ids := []string{}
 		for i := 0; i < nodes && i < 1+rng.Intn(3); i++ {
-			ids = append(ids, strconv.Itoa(1+i))
+			ids = append(ids, strconv.FormatUint(al.id(1+i), 10))
 		}
 		return "r" + strings.Join(ids, ",")
 	case 3: // rejects high ids: nodes reached late
 		ids := []string{}
 		for i := 0; i < 1+rng.Intn(3) && nodes-1-i >= 0; i++ {
-			ids = append(ids, strconv.Itoa(nodes-1-i))
+			ids = append(ids, strconv.FormatUint(al.id(nodes-1-i), 10))
 		}
 		return "r" + strings.Join(ids, ",")
 	case 4: // rejects everything
 		ids := []string{}
 		for i := 0; i < nodes; i++ {
-			ids = append(ids, strconv.Itoa(i))
+			ids = append(ids, strconv.FormatUint(al.id(i), 10))
 		}
 		return "r" + strings.Join(ids, ",")
 	default: // random subset
 		ids := []string{}
 		for i := 0; i < nodes; i++ {
 			if rng.Bool() {
-				ids = append(ids, strconv.Itoa(i))
+				ids = append(ids, strconv.FormatUint(al.id(i), 10))
 			}
 		}
 		return "r" + strings.Join(ids, ",")
@@ -139,7 +162,9 @@ func (c17SeqSuite) Gen(rng *Rng, tier string, w *bufio.Writer, stats *Stats) {
 		fmt.Fprintf(w, "# case %d\n", caseNo)
 		fmt.Fprintln(w, "graph")
 		shape := i % 6
-		nodes, acyclic := c17Graph(rng, w, shape)
+		al := c17IDAlphabet((i / 6) % c17Alphabets)
+		nodes, acyclic := c17Graph(rng, w, shape, al)
+		stats.Inc(fmt.Sprintf("gen.id_alphabet_%d", al))
 		stats.Inc(fmt.Sprintf("gen.graph_shape_%d", shape))
 		for q := 0; q < 8; q++ {
 			helper := Pick(rng, []string{"paths", "terminals", "nodes", "nodes", "nodes", "intermediary", "intermediary"})
@@ -148,17 +173,17 @@ func (c17SeqSuite) Gen(rng *Rng, tier string, w *bufio.Writer, stats *Stats) {
 			nf, df, pf := "-", "-", "-"
 			switch helper {
 			case "nodes":
-				nf = c17RejectSet(rng, nodes, rng.Intn(6))
+				nf = c17RejectSet(rng, nodes, rng.Intn(6), al)
 			case "intermediary":
-				nf = c17RejectSet(rng, nodes, 1+rng.Intn(5))
+				nf = c17RejectSet(rng, nodes, 1+rng.Intn(5), al)
 			default:
 				if rng.Chance(1, 2) {
-					pf = c17RejectSet(rng, nodes, rng.Intn(6))
+					pf = c17RejectSet(rng, nodes, rng.Intn(6), al)
 				}
 			}
 			switch x := rng.Intn(6); {
 			case x == 0:
-				df = c17RejectSet(rng, nodes, 2+rng.Intn(2))
+				df = c17RejectSet(rng, nodes, 2+rng.Intn(2), al)
 			case x == 1:
 				df = fmt.Sprintf("d%d", 1+rng.Intn(3))
 			}
@@ -171,7 +196,7 @@ func (c17SeqSuite) Gen(rng *Rng, tier string, w *bufio.Writer, stats *Stats) {
 			if rng.Chance(1, 4) {
 				root = rng.Intn(nodes)
 			}
-			fmt.Fprintf(w, "%s %s %d %d %d %s %s %s\n", helper, dir, root, skip, limit, nf, df, pf)
+			fmt.Fprintf(w, "%s %s %d %d %d %s %s %s\n", helper, dir, al.id(root), skip, limit, nf, df, pf)
 			stats.Inc("gen.helper." + helper)
 			if nf != "-" && nf != "r" && (skip > 0 || limit > 0) {
 				stats.Inc("gen.rejecting_filter_with_window")
@@ -203,8 +228,8 @@ func c17ParseNodeReject(t string) (map[graph.ID]bool, bool, bool) { // (set, isN
 	set := map[graph.ID]bool{}
 	if body := t[1:]; body != "" {
 		for _, p := range strings.Split(body, ",") {
-			v, err := strconv.Atoi(p)
-			if err != nil || v < 0 {
+			v, err := strconv.ParseUint(p, 10, 64)
+			if err != nil {
 				return nil, false, false
 			}
 			set[graph.ID(v)] = true
@@ -409,22 +434,26 @@ func (c17SeqSuite) NewRunner(stats *Stats) Runner { return &c17SeqRunner{stats: 
 func c17FmtPath(p graph.Path) string {
 	ns := make([]string, len(p.Nodes))
 	for i, n := range p.Nodes {
-		ns[i] = n.ID.String()
+		ns[i] = strconv.FormatUint(n.ID.Uint64(), 10)
 	}
 	es := make([]string, len(p.Edges))
 	for i, e := range p.Edges {
-		es[i] = e.ID.String()
+		es[i] = strconv.FormatUint(e.ID.Uint64(), 10)
 	}
 	return strings.Join(ns, "-") + "/" + strings.Join(es, "-")
 }
 
 func c17FmtNodes(s graph.NodeSet) string {
-	ids := make([]int, 0, len(s))
+	ids := make([]uint64, 0, len(s))
 	for id := range s {
-		ids = append(ids, int(id))
+		ids = append(ids, id.Uint64())
 	}
-	sort.Ints(ids)
-	return "nodes=[" + csvInts(ids) + "]"
+	sort.Slice(ids, func(i, j int) bool { return ids[i] < ids[j] })
+	parts := make([]string, len(ids))
+	for i, id := range ids {
+		parts[i] = strconv.FormatUint(id, 10)
+	}
+	return "nodes=[" + strings.Join(parts, ",") + "]"
 }
 
 func (r *c17SeqRunner) Step(t []string, raw string) string {
@@ -434,13 +463,13 @@ func (r *c17SeqRunner) Step(t []string, raw string) string {
 		r.db = &c17MemDB{nodes: map[graph.ID]*graph.Node{}}
 		return "ok"
 	case len(t) == 4 && t[0] == "edge":
-		e, e1 := strconv.Atoi(t[1])
-		a, e2 := strconv.Atoi(t[2])
-		b, e3 := strconv.Atoi(t[3])
+		e, e1 := strconv.ParseUint(t[1], 10, 64)
+		a, e2 := strconv.ParseUint(t[2], 10, 64)
+		b, e3 := strconv.ParseUint(t[3], 10, 64)
 		if r.db == nil || e1 != nil || e2 != nil || e3 != nil {
 			return "bad-op"
 		}
-		for _, id := range []int{a, b} {
+		for _, id := range []uint64{a, b} {
 			if r.db.nodes[graph.ID(id)] == nil {
 				r.db.nodes[graph.ID(id)] = graph.NewNode(graph.ID(id), graph.NewProperties(), kind)
 			}
@@ -449,7 +478,7 @@ func (r *c17SeqRunner) Step(t []string, raw string) string {
 		sort.SliceStable(r.db.rels, func(i, j int) bool { return r.db.rels[i].ID < r.db.rels[j].ID })
 		return "ok"
 	case len(t) == 8 && (t[0] == "paths" || t[0] == "terminals" || t[0] == "nodes" || t[0] == "intermediary"):
-		root, e1 := strconv.Atoi(t[2])
+		root, e1 := strconv.ParseUint(t[2], 10, 64)
 		skip, e2 := strconv.Atoi(t[3])
 		limit, e3 := strconv.Atoi(t[4])
 		rejectNodes, nfNil, okN := c17ParseNodeReject(t[5])
